@@ -69,3 +69,12 @@ impl ArchetypeVersion {
         }
     }
 }
+
+#[cfg(gecs_verif)]
+impl ArchetypeVersion {
+    pub(crate) fn verif_new(version: u32) -> Self {
+        Self {
+            version: NonZeroU32::new(version).unwrap(),
+        }
+    }
+}
